@@ -30,6 +30,7 @@ func modeCfg(r *rng) string {
 }
 
 var parseCorpus = []string{
+	"a\n-= 1", "a\n+= 1", "a\n= 1", "a\n- 1", "a\n== b", "a\n&& b", "a\n* b", "a\n. b", "a\n, b", "a\n? b",
 	"", ";", "a", "a;b", "a b", "let", "let 1; x", "let x = ", "return\nx", "a\n++b", "foo()\n++\nbar()", "a - -b", "x = a + ++b",
 	"if (a) b; else c", "if (a) b\nelse c", "if a", "while (", "for (;;) {}", "for (let i = 0; i < 3; i++) { x }", "for (x;;", "function", "function f", "function f(", "function f(a,", "function f(a,b) {", "function f(1, 2) {}",
 	"{", "}", "{ a", "{{{", "(", ")", "(a", "[", "[1,", "[1,2", "{a:1}", "({a:1})", "({a:1,})", "({a})", "({})", "x = {}", "x = {a:1, 'b': 2}", "a.b.c", "a.1", "a.(b)", "a[1][2]", "a[", "f(1,2)(3)", "f(", "f(1,",
